@@ -43,6 +43,7 @@ func TestVerifC17(t *testing.T) {
 		ctx.Assume("thresholds are distances (proxy.yaml: 'Block if distance < 0.25', 'Cache hit if distance < 0.1')")
 		ctx.Assume("task-marker / empty prompts are kept far from every cache entry: their pass-through is only judged against the firewall clause")
 		ctx.Assume("'younger than the TTL' is judged only for entries at least 5 s (plus the duration of the request) away from the TTL on the harness clock; a case whose clock margins run out ends without a verdict (case.abandoned.*)")
+		ctx.Assume("on an index of more than 32 vectors the engine's search is approximate: a must-refuse / must-hit request that the engine's own beam-64 search does not find a neighbour for either is not judged (ann_miss), bounded per group and process by max(2, 0.4% of the decided near-requests)")
 		ctx.Assume("the query rewriter's LLM of RAG worlds is unreachable (rewriting fails, the gateway goes on with the latest user message)")
 		c17Probes(ctx)
 		c17ProbesExt(ctx)
@@ -50,7 +51,9 @@ func TestVerifC17(t *testing.T) {
 		ctx.Group("cache", ctx.N(160, 4000), c17Quietly(ctx, func(cs *vkit.Case) { c17CacheCase(ctx, cs) }))
 		ctx.Group("invalidate", ctx.N(100, 2500), c17Quietly(ctx, func(cs *vkit.Case) { c17InvalidateCase(ctx, cs) }))
 		ctx.Group("bigindex", ctx.N(12, 144), c17Quietly(ctx, func(cs *vkit.Case) { c17BigIndexCase(ctx, cs) }))
+		c17AnnFloor(ctx, "bigindex")
 		ctx.Group("paging", ctx.N(2, 16), c17Quietly(ctx, func(cs *vkit.Case) { c17PagingCase(ctx, cs) }))
+		c17AnnFloor(ctx, "paging")
 	})
 }
 
@@ -342,6 +345,15 @@ func (g *c17Rig) step(group string, q *c17Req) (c17Verdict, bool) {
 	}
 	want, _ := g.judge(q)
 	g.sent = append(g.sent, q)
+	if want.Outcome == "ann_miss" {
+		// no verdict for this request (see annMiss); counted, bounded by c17AnnFloor
+		g.ctx.Count(group+".ann_miss", 1)
+		g.ctx.Count("outcome.ann_miss."+want.Why, 1)
+		return want, true
+	}
+	if want.Outcome == "blocked" && want.Why == "semantic" && len(g.liveForbidden()) > c17ExhaustiveBelow || want.Outcome == "hit" && len(g.entries) > c17ExhaustiveBelow {
+		g.ctx.Count(group+".near_decided", 1)
+	}
 	g.ctx.Eval(1)
 	g.ctx.Count("req."+group+"."+q.Kind, 1)
 	g.ctx.Count("outcome."+want.Outcome+"."+want.Why, 1)
